@@ -3,7 +3,8 @@ from .C01 import ROUTER_TB, CFG as C01
 
 CFG = dict(C01)
 CFG.update({
-    "harness": ["router:conflicts", "router"],
+    "harness": ["router:conflicts", "router", "register"],
+    "coq_header": "From DS Require Import Base Versions Router RouterSpec Register.\nFrom DSR Require Import Run_Router.",
     "judge": "judge_c02",
     "rule": "histories of 1-6 registrations drawn to collide (same prefix with kind and name clashes, repeated names, "
             "segments after wildcards, exact route beside a wildcard, dot literals, malformed templates, range pairs "
@@ -12,7 +13,12 @@ CFG.update({
             "declarative [acceptable] (well-formed template, no conflict with any accepted declaration) says so and "
             "iff the trie model accepts; after a fully accepted table: every accepted endpoint is found by some "
             "lookup of the grid (reachability) and no request of the grid is served by two declarations. "
-            "Non-trivial: a table with at least two declarations; distinct by case content.",
+            "A third stream (bin register) makes single registrations on an empty API under a tag policy, with "
+            "parameter sets pushed through dropshot's real metadata extraction by the dynamic-schema device: path / "
+            "query parameters missing, extra, clashing in name, with scalar, array, object, referenced (also cyclic), "
+            "allOf / anyOf / oneOf shapes; judged against the Register model and the declarative [valid_decl]. "
+            "Non-trivial: a table with at least two declarations, or a registration with parameters or tags; "
+            "distinct by case content.",
     "manifest": {
         "category": "proof",
         "text": "Unbounded Coq theorems over the trie model: on top of any accepted table a declaration is accepted iff "
@@ -22,8 +28,10 @@ CFG.update({
                 "no request is served by two declarations and every declaration is reached by a witness request at "
                 "every version of its range; over any registration history the accepted set stays conflict-free. "
                 "Correspondence with ApiDescription::register and lookup_route on generated histories, judged in Coq. "
-                "Parameter/tag validators (validate_path_parameters, validate_named_parameters, validate_tags) are "
-                "covered by the Register model (see note).",
+                "The validators that run before the router (tag policy, path variables = path parameters, path/query "
+                "name clash, scalar / string-array parameter types with reference resolution) are modelled in "
+                "Register.v and proved equivalent to the declarative conditions of the property; accepted iff tags, "
+                "parameters and routes are all fine.",
         "design_ref": "DESIGN.md section 6 C02",
         "note": "as C01. Known finding K2 (open): an endpoint with the empty range 'until <minimum version>' is accepted "
                 "but unreachable.",
